@@ -174,12 +174,12 @@ def run(c):
               "matched or the mode is disabled")
 
 
-def listener_slice(c, rnd, thorough):
+def listener_slice(c, rnd, thorough, prop="C02"):
     """'...or on anything else': the same decision function observed at the real listener, on keep-alive connections that
     mix granted and denied URLs of one path in every order, across a change of the rule document; TLC computes each
     expected decision from (document in force, caller, URL) alone (spec/trace/RbacTrace.tla)."""
     from checks import proxylib
-    name = "c02_listener"
+    name = "%s_listener" % prop.lower()
     exe = os.path.join(util.RUNDIR, name, "verif-agent")
     caller = proxylib.caller_of(0, exe, exe)
 
@@ -194,7 +194,11 @@ def listener_slice(c, rnd, thorough):
             "roleAssignments": [{"role": "rg", "identities": ["me"]}, {"role": "rs", "identities": ["them"]}]}}
     urls = ["/machine?comp=goalstate", "/machine?comp=secrets", "/machine?comp=other", "/machine", "/MACHINE?COMP=GOALSTATE",
             "/machine?x=1&comp=secrets", "/machine/plugins?comp=goalstate&y=2", "/metadata/instance", "/metadata/instance?comp=secrets",
-            "/other?comp=goalstate"]
+            "/other?comp=goalstate",
+            # a request repeating a query key: the first and the "any" reading are accepted where the statement is silent
+            "/machine?comp=goalstate&comp=secrets", "/machine?comp=secrets&comp=goalstate", "/machine?comp=goalstate&Comp=x"]
+    # the two signature-exempt uploads are subject to the rules like every other URL
+    uploads = [("PUT", "/vmAgentLog"), ("POST", "/machine/?comp=telemetrydata"), ("PUT", "/VMAGENTLOG")]
     steps, meta = [], {}
     cur = doc(0, False)
     steps.append({"op": "set_rules", "ep": "imds", "doc": cur})
@@ -215,7 +219,10 @@ def listener_slice(c, rnd, thorough):
                 # the rule set cannot be read at this moment (hook H7): the agent may refuse to decide (500), but whatever
                 # it decides must still be the declared decision for the document in force
                 steps.append({"op": "fault", "rules_lookup_fails": True})
-            steps.append({"op": "request", "conn": cn, "id": rid, "method": "GET", "target": u, "headers": [["Host", "h"]]})
+            mth = "GET"
+            if rnd.random() < 0.08:
+                mth, u = rnd.choice(uploads)
+            steps.append({"op": "request", "conn": cn, "id": rid, "method": mth, "target": u, "headers": [["Host", "h"]]})
             if faulty:
                 steps.append({"op": "fault", "rules_lookup_fails": False})
                 nfault += 1
@@ -245,7 +252,7 @@ def listener_slice(c, rnd, thorough):
     c.extra["listener_requests_during_rules_lookup_fault"] = nfault
     c.extra["listener_connections"] = nconn
     c.traces_validated += nconn
-    ok, why, res = validate_trace(c, "RbacTrace", "RbacTrace.cfg", rows, "c02_listener", count=0, timeout=600)
+    ok, why, res = validate_trace(c, "RbacTrace", "RbacTrace.cfg", rows, "%s_listener" % prop.lower(), count=0, timeout=600)
     if not ok:
         import re
         ids = re.findall(r'id \|-> "(d\d+)"', res.trace_text or "")
